@@ -11,7 +11,7 @@ The 401-iteration loop is decided inductively (loop cut at for.cond):
   decided by C01's TransOffset jobs.  Entry: Inv holds for LY0 = the year shown at the last recorded transition.
 The periodicity lemma (the rule instants of year Y+400 are those of Y plus 146097 days) closes the argument that the 400-year
 shift of BreakTime/MakeTime (harness/tz_ext.py) reads the right rule year."""
-import sys
+import sys, os
 from . import common
 from . import tz_common as tz
 from . import tz_jobs as J
@@ -27,11 +27,37 @@ def posix_wd(y):
     """POSIX weekday (0 = Sunday) of January 1 of year y, from the rata-die oracle"""
     return fmod(add(cal.weekday(y, 1, 1), 1), 7)
 
-def job_extend(N=2, T=3):
+YEAR_LIM = (1 << 59) // 31556952 + 500          # |year| of any recorded transition (|t| <= 2^59) plus the 401 generated years
+DAY = 86400
+# The year loop is decided over three uninterpreted functions of the year, J(y) = SEC(y,1,1), W(y) = POSIX weekday of January 1,
+# L(y) = leap(y) as 0/1, related only by the calendar-step facts below; job_calendar_steps proves those facts for the oracle's
+# definitions, so the solver never has to reason about the division-heavy rata-die terms inside the loop proof.
+def Jf(y): return smt.app("jan1_sec", y)
+def Wf(y): return smt.app("jan1_posix_wd", y)
+def Lf(y): return smt.app("leap01", y)
+def step_facts(y):
+    """instances at year y of the facts proved by job_calendar_steps"""
+    return and_(eq(Jf(add(y, 1)), add(Jf(y), mul(add(365, Lf(y)), DAY))),
+                eq(Wf(add(y, 1)), fmod(add(Wf(y), add(365, Lf(y))), 7)),
+                le(0, Lf(y)), le(Lf(y), 1), le(0, Lf(add(y, 1))), le(Lf(add(y, 1)), 1), le(0, Wf(y)), le(Wf(y), 6),
+                not_(and_(eq(Lf(y), 1), eq(Lf(add(y, 1)), 1))))
+
+def job_calendar_steps():
+    """the calendar-step facts, for the oracle's own definitions (every year that can occur)"""
+    ex = symex.Executor(tz.module(), tlimit_ms=120000)
+    def h(ex, st):
+        Y = ex.input("Y", 64, -YEAR_LIM, YEAR_LIM)
+        J = lambda y: cal.sec(y, 1, 1, 0, 0, 0); L = lambda y: b2i(cal.leap(y))
+        ex.prove(st, eq(J(add(Y, 1)), add(J(Y), mul(add(365, L(Y)), DAY))), "SEC(Y+1,1,1) = SEC(Y,1,1) + (365 + leap(Y)) days"); ex.flush(st)
+        ex.prove(st, eq(posix_wd(add(Y, 1)), fmod(add(posix_wd(Y), add(365, L(Y))), 7)), "weekday of January 1 advances by (365 + leap(Y)) mod 7")
+        ex.prove(st, not_(and_(cal.leap(Y), cal.leap(add(Y, 1)))), "no two consecutive leap years"); ex.flush(st)
+        ex.prove(st, eq(posix_wd(Y), fmod(add(fmod(add(fdiv(J(Y), DAY), 3), 7), 1), 7)), "weekday of January 1 read from its ordinal (1970-01-01 is a Thursday) is the rata-die weekday")
+    return ex.execute(h)
+
+def job_extend(N=2, T=2):
     mod = tz.module()
-    ex = symex.Executor(mod, solver=smt.Solver("cvc5", 120000, logic="QF_UFNIA"), tlimit_ms=120000)
+    ex = symex.Executor(mod, solver=smt.Solver("cvc5", 120000, logic="QF_UFNIA", log=os.environ.get("VERIF_SOLVER_LOG")), tlimit_ms=120000)
     tz.install_contracts(ex)
-    tz_ext.install_year_contracts(ex, {})
     def F(pat):
         """mangled name of the one function (defined or only declared in the wrapper's IR) whose demangled name matches"""
         try: return build.find_func(mod, pat)
@@ -43,13 +69,19 @@ def job_extend(N=2, T=3):
             if len(r) != 1: raise LookupError("pattern %r matches %d declarations" % (pat, len(r)))
             return r[0]
     ET = F(r"TimeZoneInfo::ExtendTransitions\(")
+    NMS = tz.names()
+    ex.merge_fns.add(F(r"anonymous namespace\)::ToPosixWeekday\("))                # pure helper: one merged value instead of one path per case
+    # IsLeap(y) is leap01(y) here; job_isleap decides IsLeap's IR against the oracle for every int64 year
+    ex.contracts[F(r"anonymous namespace\)::IsLeap\(")] = lambda ex, st, a: eq(Lf(a[0]), 1)
     def h(ex, st):
         z = tz.build_zone(ex, st, N, T)
         zo = z.obj.obj
         last_time = z.unix[N - 1]; last_off = z.pre_off[N]
         std_off = ex.input("std_offset", 64, -90000, 90000); dst_off = ex.input("dst_offset", 64, -90000, 90000)
         std_ti = ex.input("std_ti", 8, 0, T - 1); dst_ti = ex.input("dst_ti", 8, 0, T - 1)
-        log = st.user["pushed"] = []
+        st.user["pushed"] = []
+        LY0 = ex.fresh("LY0"); ex.inputs[LY0.name] = LY0
+        lastcs = add(last_time, last_off)
         # ---- environment of ExtendTransitions
         def c_empty(ex, st, args): return 0                       # future_spec_ and dst_abbr are non-empty: a footer with a DST part
         def c_nop(ex, st, args): return None
@@ -59,7 +91,8 @@ def job_extend(N=2, T=3):
             W(32, 8, std_off); W(72, 8, dst_off)
             for base, nm in ((80, "start"), (104, "end")):
                 # the rule itself is opaque here: TransOffset is uninterpreted in its rule argument (identified by address)
-                W(base, 4, ex.input("fmt_" + nm, 32, 0, 2)); W(base + 8, 8, ex.input("date_" + nm)); W(base + 16, 8, ex.input("time_" + nm))
+                W(base, 4, ex.input("fmt_" + nm, 32, 0, 2)); W(base + 8, 8, ex.input("date_" + nm, 64, -(1 << 31), 1 << 31))
+                W(base + 16, 8, ex.input("time_" + nm, 64, -(167 * 3600 + 3599), 167 * 3600 + 3599))       # ParsePosixSpec's range (C16)
             st.user["posix"] = pz
             return 1
         def c_gtt(ex, st, args):
@@ -70,21 +103,30 @@ def job_extend(N=2, T=3):
         def c_transoffset(ex, st, args):
             leap, wd, rule = args
             pz = st.user["posix"]
-            which = 0 if (rule.obj == pz.obj and smt.evaluate(sub(rule.off, pz.off), {}) == 80) else 1
-            r = smt.app("TransOffset%d" % which, b2i(ne(leap, 0)) if smt.is_sym(leap) else int(bool(leap)), wd)
-            # a rule's offset within the year is bounded (C01's TransOffset job: |rule time| <= 167:59:59, day 0..365)
-            ex.assume(st, and_(le(-(168 * 3600), r), le(r, 366 * 86400 + 168 * 3600)))
+            d = sub(rule.off, pz.off)
+            if rule.obj != pz.obj or smt.is_sym(d) or d not in (80, 104): raise symex.Unsupported("TransOffset on an unexpected rule object")
+            lp = ite(ne(leap, 0), 1, 0) if smt.is_sym(leap) else int(bool(leap))
+            r = smt.app("TransOffset_%s" % ("start" if d == 80 else "end"), lp, wd)
+            # a rule's offset within the year is bounded (C01's TransOffset jobs: |rule time| <= 167:59:59, day 0..365)
+            ex.assume(st, and_(le(-(168 * 3600), r), le(r, 366 * DAY + 168 * 3600)))
             return r
         def c_ctor7(ex, st, args):
             p, y, m, d, hh, mm, ss = args
-            for v in (m, d, hh, mm, ss):
-                if smt.is_sym(v): raise symex.Unsupported("civil_second(y, ...) with symbolic low fields")
-            ex.store_raw(st, Ptr(p.obj, p.off), 8, cal.sec(y, m, d, hh, mm, ss)); ex.store_raw(st, Ptr(p.obj, smt.add(p.off, 8)), 8, tz.REST)
+            if (m, d, hh, mm, ss) != (1, 1, 0, 0, 0): raise symex.Unsupported("civil_second(y, ...) other than January 1 00:00:00")
+            ex.store_raw(st, Ptr(p.obj, p.off), 8, Jf(y)); ex.store_raw(st, Ptr(p.obj, smt.add(p.off, 8)), 8, tz.REST)
+            st.user["jan1_of"] = dict(st.user.get("jan1_of", {})); st.user["jan1_of"][Jf(y).id] = y
             return None
         def c_weekday(ex, st, args):
             p = args[0]
             o = ex.load(st, Ptr(p.obj, p.off), I64)
-            return fmod(add(fdiv(o, 86400), 3), 7)                 # 1970-01-01 is a Thursday (cctz::weekday numbering: Monday = 0)
+            y = st.user.get("jan1_of", {}).get(o.id if smt.is_sym(o) else None)
+            if y is None: raise symex.Unsupported("get_weekday of a civil second that is not January 1 of a known year")
+            return fmod(add(Wf(y), 6), 7)                         # cctz::weekday numbers Monday = 0: the POSIX weekday minus one
+        def c_year(ex, st, args):
+            p = args[0]
+            o = ex.load(st, Ptr(p.obj, p.off), I64)
+            ex.prove(st, eq(o, lastcs), "ExtendTransitions asks for the year of the civil second shown at the last recorded transition only")
+            return LY0
         def c_push(ex, st, args):
             vec, tr = args
             u = ex.load(st, Ptr(tr.obj, tr.off), I64); ty = ex.load(st, Ptr(tr.obj, smt.add(tr.off, 8)), I8)
@@ -98,29 +140,27 @@ def job_extend(N=2, T=3):
         ex.contracts[F(r"anonymous namespace\)::TransOffset\(")] = c_transoffset
         ex.contracts[F(r"civil_time<cctz::detail::second_tag>::civil_time\(long, long, long, long, long, long\)")] = c_ctor7
         ex.contracts[F(r"detail::get_weekday\(")] = c_weekday
+        ex.contracts[NMS["cs_year"]] = c_year
         ex.contracts[F(r"vector<cctz::Transition, .*::push_back\(cctz::Transition const&\)")] = c_push
         ex.contracts[F(r"vector<cctz::Transition, .*::reserve\(")] = c_nop
         # ---- the loop cut
-        LY0 = ex.fresh("LY0"); ex.inputs[LY0.name] = LY0
-        lastcs = add(last_time, last_off)
-        st.user["years"] = {}
         def Yof(st): return ex.load(st, Ptr(zo, 168), I64)
-        def TO(which, Y): return smt.app("TransOffset%d" % which, b2i(cal.leap(Y)), posix_wd(Y))
+        def TO(which, Y): return smt.app("TransOffset_%s" % which, Lf(Y), Wf(Y))
         def inv(ex, st, fr):
             Y = Yof(st)
             A = lambda nm, ty: ex.load(st, fr.allocas[nm], ty)
-            light = and_(le(LY0, Y), le(Y, add(LY0, 401)), eq(A("limit", I64), add(LY0, 401)), eq(A("last_time", I64), last_time))
-            heavy = and_(eq(A("jan1_time", I64), cal.sec(Y, 1, 1, 0, 0, 0)), eq(A("jan1_weekday", I32), posix_wd(Y)),
-                         eq(ne(fmod(A("leap_year", I8), 2), 0) if False else ne(A("leap_year", I8), 0), cal.leap(Y)),
-                         or_(eq(A("leap_year", I8), 0), eq(A("leap_year", I8), 1)))
-            return (light, heavy)
+            k = sub(Y, LY0)
+            return and_(le(LY0, Y), le(Y, add(LY0, 401)), eq(A("limit", I64), add(LY0, 401)), eq(A("last_time", I64), last_time),
+                        eq(A("jan1_time", I64), Jf(Y)), eq(A("jan1_weekday", I32), Wf(Y)), eq(A("leap_year", I8), Lf(Y)),
+                        le(add(Jf(LY0), mul(k, 365 * DAY)), Jf(Y)), le(Jf(Y), add(Jf(LY0), mul(k, 366 * DAY))))
         def havoc_fn(ex, st, fr):
             hv = ex.fresh("h_last_year"); ex.inputs[hv.name] = hv
             ex.store_raw(st, Ptr(zo, 168), 8, hv)
             st.user["pushed"] = []; st.user["iter_year"] = hv
+            ex.assume(st, and_(step_facts(hv), step_facts(add(hv, 1))))      # instances of the lemmas proved by job_calendar_steps
         def check_pushes(ex, st, what):
             Y = st.user["iter_year"]
-            D = sub(add(cal.sec(Y, 1, 1, 0, 0, 0), TO(0, Y)), std_off); S = sub(add(cal.sec(Y, 1, 1, 0, 0, 0), TO(1, Y)), dst_off)
+            D = sub(add(Jf(Y), TO("start", Y)), std_off); S = sub(add(Jf(Y), TO("end", Y)), dst_off)
             p = st.user["pushed"]
             first_is_d = lt(D, S)
             a_t = ite(first_is_d, D, S); a_ty = ite(first_is_d, dst_ti, std_ti); b_t = ite(first_is_d, S, D); b_ty = ite(first_is_d, std_ti, dst_ti)
@@ -137,9 +177,8 @@ def job_extend(N=2, T=3):
                   variant=lambda ex, st, fr: sub(add(LY0, 401), Yof(st)), name="ExtendTransitions year loop", havoc_fn=havoc_fn, on_back=on_back)
         ex.cuts[(ET, "for.cond")] = cut
         # entry facts: LY0 is the year shown at the last recorded transition (what cs.year() returns there)
-        ex.assume(st, and_(le(-(1 << 40), LY0), le(LY0, 1 << 40)))
-        ex.assume(st, and_(le(cal.sec(LY0, 1, 1, 0, 0, 0), lastcs), lt(lastcs, cal.sec(add(LY0, 1), 1, 1, 0, 0, 0))), heavy=True)
-        st.user["years"] = {lastcs.id: LY0}
+        ex.assume(st, and_(le(-YEAR_LIM + 500, LY0), le(LY0, YEAR_LIM - 500)))
+        ex.assume(st, and_(le(Jf(LY0), lastcs), lt(lastcs, Jf(add(LY0, 1))), step_facts(LY0)))
         def k(st, rv):
             if smt.is_sym(rv) or rv != 1: return          # a return of false (no type for the rule / all-year forms) is not under test here
             if "iter_year" not in st.user: return          # std-only or all-year-DST footers: no expansion (EquivTransitions paths)
@@ -149,12 +188,24 @@ def job_extend(N=2, T=3):
         ex.call(st, ET, [z.obj], k)
     return ex.execute(h)
 
+def job_isleap():
+    """IsLeap (real IR) is the Gregorian leap-year predicate for every int64 year"""
+    mod = tz.module()
+    ex = symex.Executor(mod, tlimit_ms=120000)
+    IL = build.find_func(mod, r"anonymous namespace\)::IsLeap\(")
+    def h(ex, st):
+        y = ex.input("y")
+        def k(st, rv):
+            ex.prove(st, smt.iff(rv if (smt.is_sym(rv) and rv.sort == "B") or isinstance(rv, bool) else ne(rv, 0), cal.leap(y)), "IsLeap(y) == y is a Gregorian leap year")
+        ex.call(st, IL, [y], k)
+    return ex.execute(h)
+
 def job_periodicity():
     """rule instants repeat with the 400-year cycle: SEC(Y+400,1,1) = SEC(Y,1,1) + 146097*86400, same leapness, same weekday"""
     ex = symex.Executor(tz.module(), tlimit_ms=120000)
     def h(ex, st):
         Y = ex.input("Y", 64, -(1 << 40), 1 << 40)
-        ex.prove(st, eq(cal.sec(add(Y, 400), 1, 1, 0, 0, 0), add(cal.sec(Y, 1, 1, 0, 0, 0), P400)), "SEC(Y+400,1,1) = SEC(Y,1,1) + 146097 days")
+        ex.prove(st, eq(cal.sec(add(Y, 400), 1, 1, 0, 0, 0), add(cal.sec(Y, 1, 1, 0, 0, 0), P400)), "SEC(Y+400,1,1) = SEC(Y,1,1) + 146097 days"); ex.flush(st)
         ex.prove(st, eq(b2i(cal.leap(add(Y, 400))), b2i(cal.leap(Y))), "leap(Y+400) = leap(Y)")
-        ex.prove(st, eq(posix_wd(add(Y, 400)), posix_wd(Y)), "January 1 of Y+400 falls on the same weekday as January 1 of Y")
+        ex.prove(st, eq(posix_wd(add(Y, 400)), posix_wd(Y)), "January 1 of Y+400 falls on the same weekday as January 1 of Y"); ex.flush(st)
     return ex.execute(h)
